@@ -1,7 +1,10 @@
 import AfqmcVerif.Model.Dets
 import AfqmcVerif.Lemmas.Sign
+import AfqmcVerif.Lemmas.RowsOf
 import AfqmcVerif.Lemmas.Estimator
 import Mathlib.LinearAlgebra.Matrix.DotProduct
+import Mathlib.LinearAlgebra.Matrix.Block
+import Mathlib.LinearAlgebra.Matrix.NonsingularInverse
 import Mathlib.Data.Matrix.Mul
 import Mathlib.Algebra.Star.Basic
 import Mathlib.Algebra.Order.Field.Basic
@@ -51,6 +54,118 @@ theorem parity_is_sorting_sign (d0 d : List Bool) (hl : d0.length = d.length) (h
 /-- non-vacuity / regression: the statement evaluated on a non-aufbau reference with nested downward moves -/
 example : parity [false, false, true, true] [true, true, false, false] = 1
     ∧ sortSign [false, false, true, true] [true, true, false, false] = 1 := by decide
+
+/-! ## what the excitation blocks mean: complementary minors, in the in-place ordering -/
+
+section jacobi
+variable {m k : ℕ} {K : Type} [Field K]
+
+/-- **complementary-minor (Jacobi) identity in the in-place ordering**: replace the reference rows at the hole
+positions `H` by particle rows, keep every other row where it is.  The minor of the walker on the new rows is
+the reference minor times the determinant of the block `Θ[particles, hole positions]` of
+`Θ = W (W_ref)⁻¹` — the block of the Green's function that `multislater` / the CI kinds evaluate — with **no
+sign**: the sign of a determinant-list entry is entirely the sorting sign of the in-place string. -/
+theorem excitation_minor (W : Matrix (Fin m) (Fin k) K) (ref e : Fin k → Fin m) (H : Fin k → Prop) [DecidablePred H]
+    (hW : IsUnit (W.submatrix ref id).det) (he : ∀ p, ¬H p → e p = ref p) :
+    (W.submatrix e id).det
+      = (W.submatrix ref id).det
+        * (toSquareBlockProp ((W * (W.submatrix ref id)⁻¹).submatrix e id) H).det := by
+  set Wr := W.submatrix ref id with hWr
+  set A := (W * Wr⁻¹).submatrix e id with hA
+  have hprod : A * Wr = W.submatrix e id := by
+    have : A = W.submatrix e id * Wr⁻¹ := by
+      rw [hA]; ext i j; simp [Matrix.mul_apply, Matrix.submatrix_apply]
+    rw [this, Matrix.mul_assoc, Matrix.nonsing_inv_mul _ hW, Matrix.mul_one]
+  have hunit : ∀ p, ¬H p → ∀ q, A p q = if p = q then 1 else 0 := by
+    intro p hp q
+    have : A p q = (Wr * Wr⁻¹) p q := by
+      rw [hA]
+      simp only [Matrix.submatrix_apply, Matrix.mul_apply, id_eq, he p hp, hWr]
+    rw [this, Matrix.mul_nonsing_inv _ hW, Matrix.one_apply]
+  have hdet : A.det = (toSquareBlockProp A H).det := by
+    rw [Matrix.twoBlockTriangular_det A H]
+    · have hone : toSquareBlockProp A (fun i => ¬H i) = 1 := by
+        ext i j
+        rw [Matrix.toSquareBlockProp_def, Matrix.of_apply, hunit i.1 i.2 j.1, Matrix.one_apply]
+        simp [Subtype.ext_iff]
+      rw [hone, Matrix.det_one, mul_one]
+    · intro i hi j hj
+      rw [hunit i hi j, if_neg]
+      intro hij; exact hi (hij ▸ hj)
+  rw [← hprod, Matrix.det_mul, hdet, mul_comm]
+
+open AfqmcVerif.Dets in
+/-- **what one entry of a determinant list means** (every size, every reference, every excitation rank):
+the minor of the walker on the occupied orbitals of `d` — the amplitude `⟨D|φ⟩` of the determinant in the
+Slater state of `W` — equals `parity(d0, d)` times the reference minor times the determinant of the block
+`Θ[particles, hole positions]` of `Θ = W (W_ref)⁻¹`, which is how `multislater` and the CI kinds evaluate it. -/
+theorem determinant_entry (W : Matrix (Fin m) (Fin k) K) (d0 d : List Bool)
+    (hl0 : d0.length = m) (hl : d.length = m) (hk : (occList d0).length = k) (hp : popcount d0 = popcount d)
+    (hWref : IsUnit (W.submatrix (rowsOf (occList d0) m k hk
+        (fun x hx => hl0 ▸ (mem_occList.1 hx).1)) id).det) :
+    let refRows := rowsOf (occList d0) m k hk (fun x hx => hl0 ▸ (mem_occList.1 hx).1)
+    let hkd : (occList d).length = k := by
+      rw [← hk]; have := popcount_eq d0; have := popcount_eq d; unfold occList; omega
+    let sRows := rowsOf (occList d) m k hkd (fun x hx => hl ▸ (mem_occList.1 hx).1)
+    let hke : (inPlace d0 d).length = k := by rw [← hk]; simp [inPlace]
+    let hme : ∀ x ∈ inPlace d0 d, x < m := fun x hx =>
+      hl ▸ (mem_occList.1 (((inPlace_rep d0 d (hl0.trans hl.symm) hp).2 x).1 hx)).1
+    let eRows := rowsOf (inPlace d0 d) m k hke hme
+    let H : Fin k → Prop := fun p => (refRows p).val ∈ holes d0 d
+    (W.submatrix sRows id).det
+      = ((parity d0 d : ℤ) : K) * ((W.submatrix refRows id).det
+          * (toSquareBlockProp ((W * (W.submatrix refRows id)⁻¹).submatrix eRows id) H).det) := by
+  intro refRows hkd sRows hke hme eRows H
+  have hll : d0.length = d.length := hl0.trans hl.symm
+  obtain ⟨hnd, hmem⟩ := inPlace_rep d0 d hll hp
+  -- (1) rows of e are injective, rows of s increase, same range
+  have heinj : Function.Injective eRows := by
+    intro a b hab
+    have hv : (eRows a).val = (eRows b).val := congrArg Fin.val hab
+    rw [rowsOf_val, rowsOf_val] at hv
+    have := (List.Nodup.get_inj_iff hnd).1 hv
+    exact Fin.cast_injective _ this
+  have hsorted : (occList d).Pairwise (· < ·) := filter_range_sorted _ _
+  have hsmono : StrictMono sRows := by
+    intro a b hab
+    rw [Fin.lt_def, rowsOf_val, rowsOf_val]
+    exact List.pairwise_iff_get.1 hsorted (a.cast hkd.symm) (b.cast hkd.symm) (Fin.lt_def.2 (Fin.lt_def.1 hab))
+  have hrange : ∀ i, ∃ j, sRows j = eRows i := by
+    intro i
+    have hmi : (eRows i).val ∈ occList d := by
+      apply (hmem _).1; rw [rowsOf_val]; exact List.get_mem _ _
+    obtain ⟨n, hn⟩ := List.mem_iff_get.1 hmi
+    refine ⟨n.cast hkd, Fin.ext ?_⟩
+    rw [rowsOf_val]
+    simpa using hn
+  have h1 := minor_sort W eRows sRows heinj hsmono hrange
+  -- (2) the inversion sign of e is the parity
+  have hsign : invSign (fun i => (eRows i).val) = parity d0 d := by
+    rw [invSign_eq_sgn _ _ (fun a b h => heinj (Fin.ext h)), ofFn_rowsOf,
+      parity_eq_sortSign d0 d (holes_particles_length d0 d hll hp)]
+    rfl
+  -- (3) non-hole positions keep their reference row
+  have hkeep : ∀ p, ¬H p → eRows p = refRows p := by
+    intro p hp'
+    apply Fin.ext
+    rw [rowsOf_val, rowsOf_val]
+    have hx : (occList d0).get (p.cast hk.symm) ∉ holes d0 d := hp'
+    have hinp : inPlace d0 d = (occList d0).map (simul (holes d0 d) (particles d0 d)) := by
+      unfold inPlace simul; rfl
+    have hget : (inPlace d0 d).get (p.cast hke.symm)
+        = simul (holes d0 d) (particles d0 d) ((occList d0).get (p.cast hk.symm)) := by
+      simp [List.get_eq_getElem, hinp]
+    rw [hget]
+    unfold simul
+    rw [idxOf?_none_of_not_mem _ _ hx]
+  have h2 := excitation_minor W refRows eRows H hWref hkeep
+  rw [← h2, h1, hsign, ← mul_assoc]
+  have : ((parity d0 d : ℤ) : K) * ((parity d0 d : ℤ) : K) = 1 := by
+    rw [← hsign, invSign_eq_sgn _ _ (fun a b h => heinj (Fin.ext h)), ← Int.cast_mul, sgn_sq, Int.cast_one]
+  rw [this, one_mul]
+
+
+end jacobi
 
 /-! ## zero variance -/
 
